@@ -32,7 +32,7 @@ import (
 )
 
 func init() {
-	evid.Register(&evid.Check{ID: "C05", Level: "exploration", Run: run, QuickBudget: 85 * time.Second, ThoroughBudget: 14 * time.Minute})
+	evid.Register(&evid.Check{ID: "C05", Level: "exploration", Run: run, QuickBudget: 150 * time.Second, ThoroughBudget: 15 * time.Minute})
 }
 
 // ---- rule tables (read from the real client: which rules and categories exist per version) ----------
@@ -325,23 +325,36 @@ func judge(rd *Rendered, expects []Expect, cfg *Config, anns []bufx.Annotation, 
 			continue
 		}
 		where := describePos(rd, a)
+		onPlanted := false
+		for _, e := range expects {
+			if an := rd.Anchors[e.Elem]; an != nil && an.File == a.Path {
+				for _, p := range an.At {
+					if p.Line == a.StartLine && p.Col == a.StartCol {
+						onPlanted = true
+					}
+				}
+			}
+		}
 		switch {
 		case !cfg.Active[a.Type]:
 			problems = append(problems, problem{
 				fmt.Sprintf("unselected-rule/%s", a.Type),
 				fmt.Sprintf("annotation of rule %s although the configuration %s does not select it: %s:%d:%d %s", a.Type, cfg, a.Path, a.StartLine, a.StartCol, a.Message)})
-		case opLabel == "clean":
-			problems = append(problems, problem{
-				fmt.Sprintf("clean/%s/%s", a.Type, where),
-				fmt.Sprintf("clean-by-construction workspace got %s at %s:%d:%d (%s): %s", a.Type, a.Path, a.StartLine, a.StartCol, where, a.Message)})
 		case ruleExpected:
+			// the planted rule (or declared collateral) is reported, but not at the expected token
 			problems = append(problems, problem{
-				fmt.Sprintf("misplaced/%s/%s/reported-at-%s", a.Type, opLabel, where),
-				fmt.Sprintf("%s reported at %s:%d:%d (%s), which is none of the planted element's expected tokens: %s", a.Type, a.Path, a.StartLine, a.StartCol, where, a.Message)})
+				fmt.Sprintf("misplaced/%s/reported-at-%s", a.Type, where),
+				fmt.Sprintf("%s reported at %s:%d:%d (%s), which is not the expected token of a planted element (operator %s): %s", a.Type, a.Path, a.StartLine, a.StartCol, where, opLabel, a.Message)})
+		case opLabel == "clean" || !onPlanted:
+			// an element that follows the rule by construction is reported (same signature for clean
+			// workspaces and for untouched elements of planted ones: it is the same defect)
+			problems = append(problems, problem{
+				fmt.Sprintf("spurious/%s/%s", a.Type, where),
+				fmt.Sprintf("element that follows the rule by construction got %s at %s:%d:%d (%s) [%s]: %s", a.Type, a.Path, a.StartLine, a.StartCol, where, opLabel, a.Message)})
 		default:
 			problems = append(problems, problem{
 				fmt.Sprintf("unrelated/%s/%s", a.Type, opLabel),
-				fmt.Sprintf("annotation of unrelated rule %s at %s:%d:%d (%s) after planting with %s: %s", a.Type, a.Path, a.StartLine, a.StartCol, where, opLabel, a.Message)})
+				fmt.Sprintf("annotation of unrelated rule %s on the planted element at %s:%d:%d (%s) after planting with %s: %s", a.Type, a.Path, a.StartLine, a.StartCol, where, opLabel, a.Message)})
 		}
 	}
 	for i, e := range expects {
